@@ -165,7 +165,7 @@ CHECKS["C17"] = dict(
     engine="direct",
     technique="exhaustive enumeration of positions to depth 6 for both naming schemes + property-based testing (Hypothesis) of workflows and of call histories; oracle = WWT-client expansion of the WTML Url template vs the directory tree (both directions) and the reference population (RefStudy / TOAST levels); round trip returned Builder -> XML vs index_rel.wtml after every call of a history",
     text="Both schemes x 4 formats x every position to depth 6 and sampled to depth 20; tile-study and tile-allsky CLI (+cascade), tile_fits TAN/TOAST; histories of tile_fits calls (fresh, repeat, override, other parallelism) on one directory. Held after the fix of the reuse path this check motivated.",
-    note="WWT clients expand {1},{2},{3}. The pipeline's process-todos workflow (LXY scheme) is covered at the path-scheme level and through Builder, not by running an image source.",
+    note="WWT clients expand {1},{2},{3}. The pipeline's process-todos workflow runs with a harness image source (LXY scheme).",
     design="DESIGN.md §3 C17",
 )
 
